@@ -84,7 +84,15 @@ def gen(rng, tier):
     pool = render(sorted({d for s in streams for d in s}))
     kinds = QUICK_KINDS if quick else KINDS
     pressure = [c for s in streams for c in pressure_cases(rng, s, pool, quick)]
-    yield from interleave(plain_cases(rng, tier, streams, pool, kinds), pressure, 8)
+    # the same sweep over REAL octets: sessions whose frames come from the proved BMP encoder (oracle bmpenc); the model's parser
+    # is then the decoder of that codec + the state machine's reading (`T *`, C07_wire_cleanup_once)
+    wire = []
+    for i in range(1 if quick else 4):
+        d, pl = wire_stream(rng.fork("wire%d" % i), nmsgs=4 if quick else 7, terminate=(i % 2 == 1), tag="%d." % i)
+        pool.update(pl)
+        wire += list(cut_cases(rng, d, pool, kinds, step=3 if quick else 1))
+        pressure += list(pressure_cases(rng, d, pool, quick))
+    yield from interleave(interleave(plain_cases(rng, tier, streams, pool, kinds), pressure, 8), wire, 3)
 
 
 def plain_cases(rng, tier, streams, pool, kinds):
